@@ -1068,32 +1068,55 @@ func r4C07(c *Ctx) {
 			c.Unresolved("R7.7", "util.EqualIgnoreSpecifyMetadata: ignoreLabels / ignoreAnno parameters")
 		} else {
 			seen := map[string]bool{}
-			for _, ci := range AllCalls(fn) {
-				bi, ok := ci.Common().Value.(*ssa.Builtin)
-				if !ok || bi.Name() != "delete" || len(ci.Common().Args) != 2 {
-					continue
+			var scan func(g *ssa.Function, gl, ga *ssa.Parameter, depth int)
+			scan = func(g *ssa.Function, gl, ga *ssa.Parameter, depth int) {
+				for _, ci := range AllCalls(g) {
+					bi, ok := ci.Common().Value.(*ssa.Builtin)
+					if !ok || bi.Name() != "delete" || len(ci.Common().Args) != 2 {
+						// the two key lists handed on to a helper of the package: judged there
+						if h := ci.Common().StaticCallee(); h != nil && h.Pkg == g.Pkg && h.Blocks != nil && depth < 2 {
+							var hl, ha *ssa.Parameter
+							for ai, a := range ci.Common().Args {
+								if ai >= len(h.Params) {
+									break
+								}
+								as := BackwardSlice(a)
+								if as[gl] && !as[ga] {
+									hl = h.Params[ai]
+								}
+								if as[ga] && !as[gl] {
+									ha = h.Params[ai]
+								}
+							}
+							if hl != nil && ha != nil {
+								scan(h, hl, ha, depth+1)
+							}
+						}
+						continue
+					}
+					m, k := ci.Common().Args[0], ci.Common().Args[1]
+					ks := BackwardSlice(k)
+					want := ""
+					switch {
+					case ks[ga] && !ks[gl]:
+						want = "Annotations"
+					case ks[gl] && !ks[ga]:
+						want = "Labels"
+					default:
+						continue
+					}
+					src := "ignoreAnno"
+					if want == "Labels" {
+						src = "ignoreLabels"
+					}
+					mt := TermOf(m)
+					ok2 := MField(want)(mt) || mt.Any(MField(want))
+					seen[want] = true
+					c.Ob("R7.7", "EqualIgnoreSpecifyMetadata#delete("+want+")", ci.Pos(), ok2, "keys of "+src+" are deleted from "+want,
+						ifs(!ok2, "the key comes from "+src+" but is deleted from "+mt.String()+": patched "+strings.ToLower(want)+" are not ignored, the canary Deployment created earlier is never recognised and a new one is created on every reconcile"))
 				}
-				m, k := ci.Common().Args[0], ci.Common().Args[1]
-				ks := BackwardSlice(k)
-				want := ""
-				switch {
-				case ks[pa] && !ks[pl]:
-					want = "Annotations"
-				case ks[pl] && !ks[pa]:
-					want = "Labels"
-				default:
-					continue
-				}
-				src := "ignoreAnno"
-				if want == "Labels" {
-					src = "ignoreLabels"
-				}
-				mt := TermOf(m)
-				ok2 := MField(want)(mt) || mt.Any(MField(want))
-				seen[want] = true
-				c.Ob("R7.7", "EqualIgnoreSpecifyMetadata#delete("+want+")", ci.Pos(), ok2, "keys of "+src+" are deleted from "+want,
-					ifs(!ok2, "the key comes from "+src+" but is deleted from "+mt.String()+": patched "+strings.ToLower(want)+" are not ignored, the canary Deployment created earlier is never recognised and a new one is created on every reconcile"))
 			}
+			scan(fn, pl, pa, 0)
 			for _, w := range []string{"Labels", "Annotations"} {
 				if !seen[w] {
 					c.Ob("R7.7", "EqualIgnoreSpecifyMetadata#delete("+w+")", fn.Pos(), false, "ignored keys are deleted from "+w, "no delete of an ignored key from "+w+" found")
